@@ -2,6 +2,7 @@
    A string is viewed as a big-endian bit array.  All statements are universally
    quantified; bytes are N, [wf_bytes] says every byte is below 256. *)
 From RE Require Import Base Resp State Exec Bits Lemmas.
+From Coq Require Import String.
 From Coq Require Import List ZArith NArith Lia Bool FinFun.
 Import ListNotations.
 Open Scope Z_scope.
@@ -40,6 +41,12 @@ Lemma nth_map_seq {A} (f : nat -> A) n j d : (j < n)%nat -> nth j (map f (seq 0 
 Proof.
   intro H. rewrite (nth_indep _ d (f 0%nat)) by (rewrite map_length, seq_length; lia).
   rewrite map_nth, seq_nth by lia. reflexivity.
+Qed.
+
+Lemma nth_map_default {A B} (g : A -> B) l d d' i :
+  (i < length l)%nat -> nth i (map g l) d' = g (nth i l d).
+Proof.
+  intro H. rewrite (nth_indep _ d' (g d)) by (rewrite map_length; exact H). apply map_nth.
 Qed.
 
 Lemma list_eq_map_nth {A} (l : list A) d :
@@ -1097,3 +1104,308 @@ Proof.
     + intros m Hm. rewrite Hnth by lia. apply Hfirst. lia.
 Qed.
 Print Assumptions find_bit_slice.
+
+(* ------------------------------------------------------------------ *)
+(* 7. SETBIT / GETBIT                                                  *)
+(* ------------------------------------------------------------------ *)
+Definition cur_bytes (cur : option (bytes * option Z)) : bytes :=
+  match cur with Some (b, _) => b | None => [] end.
+Definition cur_exp (cur : option (bytes * option Z)) : option Z :=
+  match cur with Some (_, e) => e | None => None end.
+
+Lemma str_key_live now d k cur v n :
+  str_key now d k = Some cur -> expired now (mkE v (cur_exp cur) n) = false.
+Proof.
+  unfold str_key, lookup. intro H.
+  destruct (aget (d_map d) k) as [e|]; [|injection H as <-; reflexivity].
+  destruct (expired now e) eqn:Ex; [injection H as <-; reflexivity|].
+  destruct (str_of e); [|discriminate]. injection H as <-.
+  unfold expired in *. exact Ex.
+Qed.
+
+Lemma str_key_put now d k nb cur :
+  str_key now d k = Some cur ->
+  str_key now (put d k (VStr nb) (cur_exp cur)) k = Some (Some (nb, cur_exp cur)).
+Proof.
+  intro H. unfold str_key. rewrite lookup_put_same. cbv zeta.
+  rewrite (str_key_live _ _ _ _ _ _ H). reflexivity.
+Qed.
+
+Lemma setbit_eq now d k o vb off v cur :
+  parse_i64 o = Some off -> 0 <= off < max_bit_off ->
+  parse_i64 vb = Some v -> v = 0 \/ v = 1 ->
+  str_key now d k = Some cur ->
+  cmd_setbit now d [k; o; vb] =
+  (put d k (VStr (write_bits (extend (cur_bytes cur) (Z.to_nat (off / 8 + 1))) off 1 v)) (cur_exp cur),
+   RInt (if bit_at (cur_bytes cur) off then 1 else 0)).
+Proof.
+  intros Ho Hoff Hv Hv01 Hk. unfold cmd_setbit. rewrite Ho, Hv, Hk.
+  destruct (Z.ltb_spec off 0); [lia|]. destruct (Z.leb_spec max_bit_off off); [lia|].
+  cbn [orb].
+  assert ((v =? 0) || (v =? 1) = true) as -> by (destruct Hv01; subst; reflexivity).
+  cbn [negb]. destruct cur as [[b e]|]; reflexivity.
+Qed.
+
+Lemma div8_bound off : 0 <= off -> off + 1 <= 8 * (off / 8 + 1) /\ 0 <= off / 8.
+Proof.
+  intro H. pose proof (Z.div_mod off 8 ltac:(lia)). pose proof (Z.mod_pos_bound off 8 ltac:(lia)).
+  split; [lia|]. apply Z.div_pos; lia.
+Qed.
+
+Theorem setbit_spec now d k o vb off v cur :
+  parse_i64 o = Some off -> 0 <= off < max_bit_off ->
+  parse_i64 vb = Some v -> v = 0 \/ v = 1 ->
+  str_key now d k = Some cur ->
+  let b := cur_bytes cur in
+  let r := cmd_setbit now d [k; o; vb] in
+  (* the reply is the old bit *)
+  snd r = RInt (if bit_at b off then 1 else 0) /\
+  exists b',
+    (* the key holds a string with the same deadline *)
+    str_key now (fst r) k = Some (Some (b', cur_exp cur)) /\
+    Z.of_nat (length b') = Z.max (Z.of_nat (length b)) (off / 8 + 1) /\
+    wf_bytes b' /\
+    (* only bit off changed *)
+    (forall i, bit_at b' i = if i =? off then (v =? 1) else bit_at b i) /\
+    (* other keys are untouched *)
+    (forall k', k' <> k -> lookup now (fst r) k' = lookup now d k').
+Proof.
+  intros Ho Hoff Hv Hv01 Hk b r. subst r.
+  rewrite (setbit_eq now d k o vb off v cur) by assumption. cbn [fst snd]. fold b.
+  split; [reflexivity|].
+  destruct (div8_bound off ltac:(lia)) as [D1 D2].
+  set (eb := extend b (Z.to_nat (off / 8 + 1))).
+  assert (Hlen : Z.of_nat (length eb) = Z.max (Z.of_nat (length b)) (off / 8 + 1))
+    by (subst eb; rewrite extend_length; lia).
+  assert (H1 : off + Z.of_nat 1 <= 8 * Z.of_nat (length eb)) by lia.
+  exists (write_bits eb off 1 v).
+  split; [apply str_key_put; exact Hk|].
+  split; [rewrite write_bits_length by lia; exact Hlen|].
+  split; [apply write_bits_wf|].
+  split.
+  - intro i. rewrite write_bits_bit_at by lia.
+    destruct (Z.eqb_spec i off) as [->|Hne].
+    + destruct (Z.leb_spec off off); [|lia].
+      destruct (Z.ltb_spec off (off + Z.of_nat 1)); [|lia]. cbn [andb].
+      replace (off + Z.of_nat 1 - 1 - off) with 0 by lia.
+      destruct Hv01; subst; reflexivity.
+    + destruct (Z.leb_spec off i), (Z.ltb_spec i (off + Z.of_nat 1)); cbn [andb]; try lia;
+        subst eb; apply bit_at_extend.
+  - intros k' Hne. apply lookup_put_other. exact Hne.
+Qed.
+Print Assumptions setbit_spec.
+
+Lemma getbit_eq now d k o off cur :
+  parse_i64 o = Some off -> 0 <= off < max_bit_off -> str_key now d k = Some cur ->
+  cmd_getbit now d [k; o] = (d, RInt (if bit_at (cur_bytes cur) off then 1 else 0)).
+Proof.
+  intros Ho Hoff Hk. unfold cmd_getbit. rewrite Ho, Hk.
+  destruct (Z.ltb_spec off 0); [lia|]. destruct (Z.leb_spec max_bit_off off); [lia|].
+  cbn [orb]. destruct cur as [[b e]|]; [reflexivity|].
+  cbn [cur_bytes]. rewrite bit_at_outside by (cbn [length]; lia). reflexivity.
+Qed.
+
+(* GETBIT after SETBIT: the written bit at off, the previous reply elsewhere
+   (which is 0 beyond the end of the old string, see getbit_beyond) *)
+Theorem getbit_after_setbit now d k o vb off v cur o' off' :
+  parse_i64 o = Some off -> 0 <= off < max_bit_off ->
+  parse_i64 vb = Some v -> v = 0 \/ v = 1 ->
+  str_key now d k = Some cur ->
+  parse_i64 o' = Some off' -> 0 <= off' < max_bit_off ->
+  let d' := fst (cmd_setbit now d [k; o; vb]) in
+  cmd_getbit now d' [k; o'] =
+  (d', if off' =? off then RInt v else snd (cmd_getbit now d [k; o'])).
+Proof.
+  intros Ho Hoff Hv Hv01 Hk Ho' Hoff' d'.
+  destruct (setbit_spec now d k o vb off v cur Ho Hoff Hv Hv01 Hk) as (_ & b' & Hk' & _ & _ & Hbit & _).
+  fold d' in Hk'.
+  rewrite (getbit_eq now d' k o' off' _ Ho' Hoff' Hk'). cbn [cur_bytes].
+  rewrite (getbit_eq now d k o' off' _ Ho' Hoff' Hk). cbn [snd].
+  rewrite Hbit. destruct (off' =? off); [|reflexivity].
+  destruct Hv01; subst; reflexivity.
+Qed.
+Print Assumptions getbit_after_setbit.
+
+Theorem getbit_beyond now d k o off cur :
+  parse_i64 o = Some off -> 0 <= off < max_bit_off -> str_key now d k = Some cur ->
+  8 * Z.of_nat (length (cur_bytes cur)) <= off ->
+  cmd_getbit now d [k; o] = (d, RInt 0).
+Proof.
+  intros Ho Hoff Hk Hb. rewrite (getbit_eq now d k o off cur) by assumption.
+  rewrite bit_at_outside by lia. reflexivity.
+Qed.
+
+Example setbit_getbit_ex :
+  let d0 := put empty_db (s2b "k"%string) (VStr [1%N]) (Some 500) in
+  let r := cmd_setbit 100 d0 [s2b "k"%string; s2b "21"%string; s2b "1"%string] in
+  snd r = RInt 0
+  /\ str_key 100 (fst r) (s2b "k"%string) = Some (Some ([1%N; 0%N; 4%N], Some 500))
+  /\ snd (cmd_getbit 100 (fst r) [s2b "k"%string; s2b "21"%string]) = RInt 1
+  /\ snd (cmd_getbit 100 (fst r) [s2b "k"%string; s2b "7"%string]) = RInt 1
+  /\ snd (cmd_getbit 100 (fst r) [s2b "k"%string; s2b "22"%string]) = RInt 0
+  /\ snd (cmd_setbit 100 (fst r) [s2b "k"%string; s2b "7"%string; s2b "0"%string]) = RInt 1
+  /\ snd (cmd_setbit 100 empty_db [s2b "nokey"%string; s2b "9"%string; s2b "1"%string]) = RInt 0.
+Proof. vm_compute. repeat split; reflexivity. Qed.
+
+(* ------------------------------------------------------------------ *)
+(* 9. BITOP                                                            *)
+(* ------------------------------------------------------------------ *)
+Definition zip_bits (f : bool -> bool -> bool) (l1 l2 : list bool) : list bool :=
+  map (fun xy => f (fst xy) (snd xy)) (combine l1 l2).
+
+Lemma byte_op_lt f x y : (byte_op f x y < 256)%N.
+Proof.
+  unfold byte_op.
+  pose proof (bits_val_range (zip_bits f (byte_bits x) (byte_bits y))) as R.
+  change (Z.of_nat (length (zip_bits f (byte_bits x) (byte_bits y)))) with 8 in R.
+  change (2 ^ 8) with 256 in R. unfold zip_bits in R. lia.
+Qed.
+
+Lemma byte_bits_byte_op f x y :
+  byte_bits (byte_op f x y) = zip_bits f (byte_bits x) (byte_bits y).
+Proof.
+  unfold byte_op. fold (zip_bits f (byte_bits x) (byte_bits y)).
+  rewrite byte_bits_val_bits, Z2N.id by apply bits_val_range.
+  apply val_bits_bits_val. reflexivity.
+Qed.
+
+Lemma testbit_byte_bits b j : (j < 8)%N ->
+  N.testbit b j = nth (7 - N.to_nat j) (byte_bits b) false.
+Proof.
+  intro H. rewrite nth_byte_bits by lia. f_equal. lia.
+Qed.
+
+(* bit j of the result is f applied to bit j of the operands *)
+Theorem byte_op_testbit f x y j : (j < 8)%N ->
+  N.testbit (byte_op f x y) j = f (N.testbit x j) (N.testbit y j).
+Proof.
+  intro H. rewrite !(testbit_byte_bits _ j H), byte_bits_byte_op.
+  assert (Hk : (7 - N.to_nat j < 8)%nat) by lia.
+  revert Hk. generalize (7 - N.to_nat j)%nat as k. intros k Hk.
+  unfold zip_bits, byte_bits. cbn [map combine fst snd].
+  do 8 (destruct k as [|k]; [reflexivity|]). lia.
+Qed.
+Print Assumptions byte_op_testbit.
+Example byte_op_ex :
+  byte_op andb 12%N 10%N = 8%N /\ byte_op orb 12%N 10%N = 14%N /\ byte_op xorb 12%N 10%N = 6%N
+  /\ byte_op xorb 255%N 170%N = 85%N.
+Proof. repeat split; reflexivity. Qed.
+
+Lemma nth_extend bs n i : nth i (extend bs n) 0%N = nth i bs 0%N.
+Proof.
+  unfold extend. destruct (Nat.lt_ge_cases i (length bs)) as [Hlt|Hge].
+  - apply app_nth1. exact Hlt.
+  - rewrite app_nth2 by exact Hge. rewrite repeatN_nth. symmetry. apply nth_overflow. exact Hge.
+Qed.
+
+Theorem bytes_op_spec f n a b :
+  (length a <= n)%nat -> (length b <= n)%nat ->
+  length (bytes_op f n a b) = n /\
+  wf_bytes (bytes_op f n a b) /\
+  forall i, (i < n)%nat ->
+    nth i (bytes_op f n a b) 0%N = byte_op f (nth i a 0%N) (nth i b 0%N).
+Proof.
+  intros Ha Hb. unfold bytes_op.
+  assert (La : length (extend a n) = n) by (rewrite extend_length; lia).
+  assert (Lb : length (extend b n) = n) by (rewrite extend_length; lia).
+  split; [rewrite map_length, combine_length, La, Lb; lia|].
+  split.
+  - unfold wf_bytes. apply Forall_forall. intros x Hx.
+    apply in_map_iff in Hx. destruct Hx as ([p q] & <- & _). apply byte_op_lt.
+  - intros i Hi.
+    rewrite (nth_map_default _ _ (0%N, 0%N)) by (rewrite combine_length, La, Lb; lia).
+    rewrite combine_nth by lia. cbn [fst snd].
+    rewrite !nth_extend. reflexivity.
+Qed.
+Print Assumptions bytes_op_spec.
+Example bytes_op_ex :
+  bytes_op xorb 3 [255%N; 15%N; 1%N] [240%N] = [15%N; 15%N; 1%N]
+  /\ bytes_op andb 3 [255%N; 15%N; 1%N] [240%N] = [240%N; 0%N; 0%N].
+Proof. split; reflexivity. Qed.
+
+(* total version of bit_at_testbit: a missing byte counts as 0 *)
+Lemma bit_at_testbit_total bs i : 0 <= i ->
+  bit_at bs i = N.testbit (nth (Z.to_nat (i / 8)) bs 0%N) (Z.to_N (7 - i mod 8)).
+Proof.
+  intro H. destruct (Z_lt_ge_dec i (8 * Z.of_nat (length bs))) as [Hlt|Hge].
+  - apply bit_at_testbit. lia.
+  - rewrite bit_at_outside by lia.
+    rewrite nth_overflow; [reflexivity|].
+    pose proof (Z.div_mod i 8 ltac:(lia)). pose proof (Z.mod_pos_bound i 8 ltac:(lia)).
+    assert (Z.of_nat (length bs) <= i / 8) by lia. lia.
+Qed.
+
+(* the same on the bit array: bit i of the result is f of bit i of the
+   operands, an operand that is too short reading as 0 *)
+Theorem bytes_op_bit_at f n a b i :
+  (length a <= n)%nat -> (length b <= n)%nat -> 0 <= i < 8 * Z.of_nat n ->
+  bit_at (bytes_op f n a b) i = f (bit_at a i) (bit_at b i).
+Proof.
+  intros Ha Hb Hi. destruct (bytes_op_spec f n a b Ha Hb) as (L & _ & Hn).
+  rewrite !bit_at_testbit_total by lia.
+  pose proof (Z.div_mod i 8 ltac:(lia)). pose proof (Z.mod_pos_bound i 8 ltac:(lia)).
+  rewrite Hn by lia. apply byte_op_testbit. lia.
+Qed.
+Print Assumptions bytes_op_bit_at.
+
+(* the whole BITOP AND/OR/XOR fold: bit i of the result is the fold of f over
+   bit i of all operands *)
+Theorem fold_bytes_op_bit_at f n rest i : forall acc,
+  length acc = n -> Forall (fun o => (length o <= n)%nat) rest -> 0 <= i < 8 * Z.of_nat n ->
+  length (fold_left (bytes_op f n) rest acc) = n /\
+  bit_at (fold_left (bytes_op f n) rest acc) i =
+  fold_left f (map (fun o => bit_at o i) rest) (bit_at acc i).
+Proof.
+  induction rest as [|o rest IH]; intros acc Hacc HF Hi; [split; [exact Hacc | reflexivity]|].
+  inversion HF as [|? ? Ho Hrest]; subst.
+  cbn [fold_left map].
+  destruct (bytes_op_spec f (length acc) acc o ltac:(lia) Ho) as (L & _ & _).
+  destruct (IH (bytes_op f (length acc) acc o) L Hrest Hi) as [IH1 IH2].
+  split; [exact IH1|]. rewrite IH2. f_equal.
+  apply bytes_op_bit_at; [lia | exact Ho | exact Hi].
+Qed.
+Print Assumptions fold_bytes_op_bit_at.
+Example fold_bytes_op_ex :
+  fold_left (bytes_op xorb 2) [[255%N]; [1%N; 1%N]] (extend [15%N] 2) = [241%N; 1%N].
+Proof. reflexivity. Qed.
+
+(* NOT *)
+Lemma not_byte_check :
+  forallb (fun x => N.ltb (255 - x) 256 &&
+             forallb (fun j => Bool.eqb (N.testbit (255 - x) j) (negb (N.testbit x j)))
+                     (map N.of_nat (seq 0 8)))
+          (map N.of_nat (seq 0 256)) = true.
+Proof. vm_compute. reflexivity. Qed.
+
+Theorem not_byte_spec x j : (x < 256)%N -> (j < 8)%N ->
+  (255 - x < 256)%N /\ N.testbit (255 - x) j = negb (N.testbit x j).
+Proof.
+  intros Hx Hj. pose proof not_byte_check as C.
+  rewrite forallb_forall in C. specialize (C x).
+  assert (Hin : In x (map N.of_nat (seq 0 256))).
+  { apply in_map_iff. exists (N.to_nat x). split; [lia|]. apply in_seq. lia. }
+  apply C in Hin. apply andb_true_iff in Hin. destruct Hin as [C1 C2].
+  split; [apply N.ltb_lt; exact C1|].
+  rewrite forallb_forall in C2. apply Bool.eqb_prop. apply C2.
+  apply in_map_iff. exists (N.to_nat j). split; [lia|]. apply in_seq. lia.
+Qed.
+Print Assumptions not_byte_spec.
+
+Theorem not_bytes_spec a : wf_bytes a ->
+  let r := map (fun x => (255 - x)%N) a in
+  length r = length a /\ wf_bytes r /\
+  forall i, 0 <= i < 8 * Z.of_nat (length a) -> bit_at r i = negb (bit_at a i).
+Proof.
+  intros Hwf r. subst r. split; [apply map_length|]. split.
+  - unfold wf_bytes in *. rewrite Forall_forall in *. intros y Hy.
+    apply in_map_iff in Hy. destruct Hy as (x & <- & Hx).
+    apply (not_byte_spec x 0%N); [apply Hwf; exact Hx | lia].
+  - intros i Hi.
+    pose proof (Z.div_mod i 8 ltac:(lia)). pose proof (Z.mod_pos_bound i 8 ltac:(lia)).
+    rewrite !bit_at_testbit by (rewrite ?map_length; lia).
+    rewrite (nth_map_default _ _ 0%N) by lia. apply not_byte_spec; [|lia].
+    unfold wf_bytes in Hwf. rewrite Forall_forall in Hwf. apply Hwf. apply nth_In. lia.
+Qed.
+Print Assumptions not_bytes_spec.
+Example not_bytes_ex : map (fun x => (255 - x)%N) [0%N; 170%N; 255%N] = [255%N; 85%N; 0%N].
+Proof. reflexivity. Qed.
